@@ -58,10 +58,13 @@ def correspond(ctx):
         res.nontrivial.add(sk.case_sig(c["name"], c["cfg"], c["db"], c["profile"]))
         res.count("direct:" + c["name"])
         so.c04(res, c)
+    so.c04_repeated_setups(res, ctx.rng, ctx.pick(40, 300))
+    res.evaluations += 1
     res.extra["schemes_modelled"] = list(sc.MODELLED)
     res.rule = (f"per scheme {n_cfg} configurations x 4 profiles with 8..12-byte random keywords and 8-byte identifiers, ONE identifier shared "
                 "by every keyword; scanned: serialized index and every serialized token for every keyword and identifier; compared: all "
-                "ciphertext entries of one index pairwise, and against a second setup of the same (key, database)")
+                "ciphertext entries of one index pairwise, and against a second setup of the same (key, database); plus one 64-posting "
+                "database encrypted 40 (quick) / 300 (thorough) times by one scheme object, no ciphertext entry may ever repeat")
     for c in cases[:1] + cases[-1:]:
         res.sample({"scheme": c["name"], "profile": c["profile"], "keywords": [k.hex() for k in c["db"]][:3]})
     return res
@@ -72,6 +75,7 @@ def search(ctx, broken, res0):
     for c in long_cases(ctx, ctx.pick(10, 25)):
         res.evaluations += 1
         so.c04(res, c)
+    so.c04_repeated_setups(res, ctx.rng, ctx.pick(300, 1200))
     return res
 
 
